@@ -156,6 +156,31 @@ impl Shape {
         }
         true
     }
+    /// the same block with a type error injected into every contribution (C16: which error is
+    /// reported first must not depend on hash seeds)
+    pub fn program_with_errors(&self, order: &[usize]) -> String {
+        let mut s = String::from("begin\n  let Ret = @(intrinsic(ret)) that\n  let Int64 = @(intrinsic(i64)) that\n  let Thk = @(intrinsic(thk)) that\n  let VType = @(intrinsic(vtype)) that\n  let Unit = @(intrinsic(unit)) that\n");
+        for &i in order {
+            let c = self.contribution(i);
+            let bad = match self.kinds[i] {
+                | Kind::Sealed => c.replace(" end", &format!(" | +Bad{} : Ret Unit end", i)),
+                | Kind::Alias => c.clone(),
+                | Kind::Func => c.replace("=> ret ", "=> ret \"s\" ").replace("ret \"s\" a", "ret \"s\"").replace(&format!("ret \"s\" {}", self.vref[i].map(|j| self.name(j)).unwrap_or_default()), "ret \"s\""),
+                | Kind::Param => c.clone(),
+                | _ => {
+                    // value definitions: a string where an Int64 is expected
+                    let eq = c.rfind('=').unwrap();
+                    format!("{}= \"s{}\"", &c[..eq], i)
+                }
+            };
+            s.push_str("  ");
+            s.push_str(&bad);
+            s.push_str(" that\n");
+        }
+        s.push_str("  ret 0\nend\n");
+        s
+    }
+
     pub fn program(&self, order: &[usize]) -> String {
         let mut s = String::from("(begin\n  let Ret = @(intrinsic(ret)) that\n  let Int64 = @(intrinsic(i64)) that\n  let Thk = @(intrinsic(thk)) that\n  let VType = @(intrinsic(vtype)) that\n  let Unit = @(intrinsic(unit)) that\n");
         for &i in order {
@@ -175,7 +200,7 @@ impl Shape {
     }
 }
 
-fn permutations(n: usize) -> Vec<Vec<usize>> {
+pub fn permutations(n: usize) -> Vec<Vec<usize>> {
     if n == 0 {
         return vec![vec![]];
     }
